@@ -4,7 +4,8 @@
 open Model
 
 let unhx (s : string) : float = Int64.float_of_bits (Int64.of_string s)
-let hx (v : float) : string = Printf.sprintf "0x%016Lx" (Int64.bits_of_float v)
+let bits (v : float) : int64 = if Float.is_nan v then 0x7ff8000000000000L else Int64.bits_of_float v
+let hx (v : float) : string = Printf.sprintf "0x%016Lx" (bits v)
 
 let rec nat_of_int n = let rec go acc k = if k = 0 then acc else go (S acc) (k - 1) in go O n
 let rec int_of_nat = function O -> 0 | S k -> 1 + int_of_nat k
@@ -121,7 +122,7 @@ let log_summary (name : string) (log : (float * float list) list) (full : bool) 
   let h = ref 0xcbf29ce484222325L in
   let word (w : int64) = h := Int64.mul (Int64.logxor !h w) 1099511628211L in
   let n = ref 0 in
-  List.iter (fun (t, y) -> incr n; word (Int64.bits_of_float t); List.iter (fun v -> word (Int64.bits_of_float v)) y) log;
+  List.iter (fun (t, y) -> incr n; word (bits t); List.iter (fun v -> word (bits v)) y) log;
   Buffer.add_string buf (Printf.sprintf "%s %d 0x%016Lx\n" name !n !h);
   if full then
     List.iter (fun (t, y) -> Buffer.add_string buf (Printf.sprintf " %scall %s %s\n" name (hx t) (hxlist y))) log
